@@ -20,6 +20,9 @@ def DataFrame_head (truth : Term → Bool) (n_is_None : Bool) (dataiter_DEFAULT_
     let n' : Int := (pmin self_nrow n);
     Out.ret [] (Term.app ".slice" [(Term.sym "self"), (Term.rows (arange (0 : Int) n'))])
 
+/-- the decorators of dataiter/data_frame.py: DataFrame.head, outermost first -/
+def DataFrame_head_decorators : List String := []
+
 /-- dataiter/data_frame.py: DataFrame.tail (sha256 of the function source: 6cbedf94d0ca7a46) -/
 def DataFrame_tail (truth : Term → Bool) (n_is_None : Bool) (dataiter_DEFAULT_PEEK_ROWS : Int) (self_nrow : Int) (n : Int) : Out :=
   if n_is_None then
@@ -30,6 +33,9 @@ def DataFrame_tail (truth : Term → Bool) (n_is_None : Bool) (dataiter_DEFAULT_
     let n' : Int := (pmin self_nrow n);
     Out.ret [] (Term.app ".slice" [(Term.sym "self"), (Term.rows (arange (self_nrow - n') self_nrow))])
 
+/-- the decorators of dataiter/data_frame.py: DataFrame.tail, outermost first -/
+def DataFrame_tail_decorators : List String := []
+
 /-- dataiter/data_frame.py: DataFrame._parse_rows_from_boolean (sha256 of the function source: 28fa19cce9bf339b) -/
 def DataFrame_parse_rows_from_boolean (truth : Term → Bool) (len_rows : Int) (self_nrow : Int) : Out :=
   let rows' : Term := (Term.app "Vector.fast" [(Term.sym "rows"), (Term.sym "bool")]);
@@ -37,6 +43,9 @@ def DataFrame_parse_rows_from_boolean (truth : Term → Bool) (len_rows : Int) (
     Out.raise [] "ValueError"
   else
     Out.ret [] (Term.app "Vector.fast" [(Term.app "getitem" [(Term.app "np.nonzero" [rows']), (Term.int (0 : Int))]), (Term.sym "int")])
+
+/-- the decorators of dataiter/data_frame.py: DataFrame._parse_rows_from_boolean, outermost first -/
+def DataFrame_parse_rows_from_boolean_decorators : List String := []
 
 /-- dataiter/data_frame.py: DataFrame.filter (sha256 of the function source: c45f431825ecd074) -/
 def DataFrame_filter (truth : Term → Bool) (rows_is_None : Bool) : Out :=
@@ -63,6 +72,9 @@ def DataFrame_filter (truth : Term → Bool) (rows_is_None : Bool) : Out :=
       let eff0 : Term := (Term.app "for" [(Term.app "tuple" [(Term.sym "colname"), (Term.sym "column")]), (Term.app ".items" [(Term.sym "self")]), (Term.app "block" [(Term.app "yield" [(Term.app "tuple" [(Term.sym "colname"), (Term.app "np.take" [(Term.sym "column"), rows'])])])])]);
       Out.fall [eff0]
 
+/-- the decorators of dataiter/data_frame.py: DataFrame.filter, outermost first -/
+def DataFrame_filter_decorators : List String := ["deco.new_from_generator"]
+
 /-- dataiter/data_frame.py: DataFrame.filter_out (sha256 of the function source: e11629f5d098ab96) -/
 def DataFrame_filter_out (truth : Term → Bool) (rows_is_None : Bool) : Out :=
   if (!rows_is_None) then
@@ -88,6 +100,9 @@ def DataFrame_filter_out (truth : Term → Bool) (rows_is_None : Bool) : Out :=
       let eff0 : Term := (Term.app "for" [(Term.app "tuple" [(Term.sym "colname"), (Term.sym "column")]), (Term.app ".items" [(Term.sym "self")]), (Term.app "block" [(Term.app "yield" [(Term.app "tuple" [(Term.sym "colname"), (Term.app "np.delete" [(Term.sym "column"), rows'])])])])]);
       Out.fall [eff0]
 
+/-- the decorators of dataiter/data_frame.py: DataFrame.filter_out, outermost first -/
+def DataFrame_filter_out_decorators : List String := ["deco.new_from_generator"]
+
 /-- dataiter/data_frame.py: DataFrame.slice (sha256 of the function source: 511154c3813eb735) -/
 def DataFrame_slice (truth : Term → Bool) (rows_is_None : Bool) (cols_is_None : Bool) : Out :=
   let rows' : Term := (if rows_is_None then (Term.app "np.arange" [(Term.app ".nrow" [(Term.sym "self")])]) else (Term.sym "rows"));
@@ -96,6 +111,9 @@ def DataFrame_slice (truth : Term → Bool) (rows_is_None : Bool) (cols_is_None 
   let cols' : Term := (Term.app "._parse_cols_from_integer" [(Term.sym "self"), cols']);
   let eff0 : Term := (Term.app "for" [(Term.sym "colname"), (Term.app "GeneratorExp" [(Term.app "getitem" [(Term.app ".colnames" [(Term.sym "self")]), (Term.sym "x")]), (Term.app "in" [(Term.sym "x"), cols', (Term.app "if" [])])]), (Term.app "block" [(Term.app "yield" [(Term.app "tuple" [(Term.sym "colname"), (Term.app ".copy" [(Term.app "getitem" [(Term.app "getitem" [(Term.sym "self"), (Term.sym "colname")]), rows'])])])])])]);
   Out.fall [eff0]
+
+/-- the decorators of dataiter/data_frame.py: DataFrame.slice, outermost first -/
+def DataFrame_slice_decorators : List String := ["deco.new_from_generator"]
 
 /-- dataiter/data_frame.py: DataFrame.slice_off (sha256 of the function source: f6a15670316a4411) -/
 def DataFrame_slice_off (truth : Term → Bool) (rows_is_None : Bool) (cols_is_None : Bool) : Out :=
@@ -106,12 +124,18 @@ def DataFrame_slice_off (truth : Term → Bool) (rows_is_None : Bool) (cols_is_N
   let eff0 : Term := (Term.app "for" [(Term.app "tuple" [(Term.sym "i"), (Term.sym "colname")]), (Term.app "enumerate" [(Term.app ".colnames" [(Term.sym "self")])]), (Term.app "block" [(Term.app "if" [(Term.app "In" [(Term.sym "i"), cols']), (Term.app "block" [(Term.sym "continue")]), (Term.app "block" [])]), (Term.app "yield" [(Term.app "tuple" [(Term.sym "colname"), (Term.app "np.delete" [(Term.app "getitem" [(Term.sym "self"), (Term.sym "colname")]), rows'])])])])]);
   Out.fall [eff0]
 
+/-- the decorators of dataiter/data_frame.py: DataFrame.slice_off, outermost first -/
+def DataFrame_slice_off_decorators : List String := ["deco.new_from_generator"]
+
 /-- dataiter/data_frame.py: DataFrame.drop_na (sha256 of the function source: 16b3ee3bca8991c0) -/
 def DataFrame_drop_na (truth : Term → Bool) : Out :=
   let drop' : Term := (Term.app "Vector.fast([False], bool).repeat" [(Term.app ".nrow" [(Term.sym "self")])]);
   let eff0 : Term := (Term.app "for" [(Term.sym "colname"), (Term.sym "colnames"), (Term.app "block" [(Term.app "assign" [(Term.sym "drop"), (Term.app "BitOr" [(Term.sym "drop"), (Term.app ".is_na" [(Term.app "getitem" [(Term.sym "self"), (Term.sym "colname")])])])])]), (Term.app "init" [(Term.sym "drop"), drop'])]);
   let drop' : Term := (Term.app "value-after-loop" [(Term.sym "drop"), eff0]);
   Out.ret [eff0] (Term.app ".filter_out" [(Term.sym "self"), drop'])
+
+/-- the decorators of dataiter/data_frame.py: DataFrame.drop_na, outermost first -/
+def DataFrame_drop_na_decorators : List String := []
 
 /-- dataiter/data_frame.py: DataFrame.unique (sha256 of the function source: 6a3c24bcd387b834) -/
 def DataFrame_unique (truth : Term → Bool) : Out :=
@@ -124,5 +148,8 @@ def DataFrame_unique (truth : Term → Bool) : Out :=
   let eff1 : Term := (Term.app "for" [(Term.sym "i"), (Term.app "range" [(Term.app ".nrow" [(Term.sym "self")])]), (Term.app "block" [(Term.app "if" [(Term.app "NotIn" [(Term.app "getitem" [rows', (Term.sym "i")]), seen']), (Term.app "block" [(Term.app ".add" [seen', (Term.app "getitem" [rows', (Term.sym "i")])]), (Term.app ".append" [keep', (Term.sym "i")])]), (Term.app "block" [])])])]);
   let eff2 : Term := (Term.app "for" [(Term.app "tuple" [(Term.sym "colname"), (Term.sym "column")]), (Term.app ".items" [(Term.sym "self")]), (Term.app "block" [(Term.app "yield" [(Term.app "tuple" [(Term.sym "colname"), (Term.app ".copy" [(Term.app "getitem" [(Term.sym "column"), keep'])])])])])]);
   Out.fall [eff0, eff1, eff2]
+
+/-- the decorators of dataiter/data_frame.py: DataFrame.unique, outermost first -/
+def DataFrame_unique_decorators : List String := ["deco.new_from_generator"]
 
 end DI.Gen
